@@ -17,12 +17,12 @@ import (
 
 // Decoder names (the "decoder" field of an Input).
 const (
-	DJSONValue      = "json-value"      // ctyjson.Unmarshal(data, type)
-	DJSONType       = "json-type"       // ctyjson.UnmarshalType(data)
+	DJSONValue      = "json-value"       // ctyjson.Unmarshal(data, type)
+	DJSONType       = "json-type"        // ctyjson.UnmarshalType(data)
 	DJSONTypeDirect = "json-type-direct" // (*cty.Type).UnmarshalJSON(data) without encoding/json's validity pre-scan
-	DJSONImplied    = "json-implied"    // ctyjson.ImpliedType(data)
-	DMsgpackValue   = "msgpack-value"   // msgpack.Unmarshal(data, type)
-	DMsgpackImplied = "msgpack-implied" // msgpack.ImpliedType(data)
+	DJSONImplied    = "json-implied"     // ctyjson.ImpliedType(data)
+	DMsgpackValue   = "msgpack-value"    // msgpack.Unmarshal(data, type)
+	DMsgpackImplied = "msgpack-implied"  // msgpack.ImpliedType(data)
 )
 
 // IsValueDecoder reports whether the decoder takes a target type and returns a value.
